@@ -633,7 +633,8 @@ def run(rep, tier):
             rep.broken.append(str(ex))
     # the cached white-space bitmap is also exercised by the byte-level evaluation (consecutive SkipOne calls): the
     # shape rule on the mask shift is decided together with it
-    rep.corroborate('E3.shift-range', 'E5.skip-extent')
+    # (the shift rule itself is not paired: the defect it exists for needs a white-space run that starts exactly two bytes
+    # before the end of the cached block - only its instance floor is)
     rep.corroborate_floor('C11: cached-bitmap', 'E5.skip-extent')
     rep.trust('clang 14 front end', 'vector load widths (sv/primitives.py)', 'TrailingZeroes(m) in [0, bits(m)-1] for m != 0; to_bitmask() of an N-lane vector < 2^N',
               'libc memcpy/memcmp read exactly the stated range', 'a SkipScanner object is used with a single buffer (rule E7.fresh-parser of C02)')
